@@ -288,8 +288,46 @@ def machine_stream(ctx, worlds, runs, deps_built=True):
         idx.append(i)
     ctx.cov.setdefault("input_distribution", {})["sim_run_status"] = statuses
     ctx.cov["input_distribution"]["sim_runs_not_fed_to_machine"] = skipped
-    mism = ctx.model_stream("S-sim", HEADER, "world * list ev", "(fun p => observe (fst p) (snd p))", cases, shard=12)
+    mism = cached_model_stream(ctx, "S-sim", HEADER, "world * list ev", "(fun p => observe (fst p) (snd p))", cases, 12,
+                               ["Model/Sim.v", "Gen/Src_Task.v", "Gen/Src_Event.v", "Model/Val.v"])
     return [(idx[k], mv, cases[k][1]) for k, mv in mism], len(cases)
+
+
+def cached_model_stream(ctx, stream, header, in_type, fn, cases, shard, sources):
+    """model_stream, memoised on the exact case text and the exact model sources: the S-sim checks feed the same call logs
+    to the same machine, so the evaluation inside Coq is done once per (runs, model) and its result shared."""
+    h = hashlib.sha256()
+    for src in sources:
+        p = os.path.join(core.COQ, src)
+        h.update(open(p, "rb").read() if os.path.exists(p) else b"MISSING")
+    h.update((header + in_type + fn).encode())
+    for c in cases:
+        h.update(c[0].encode())
+        h.update(json.dumps(c[1]).encode())
+    d = os.path.join(core.BUILD, "simcache")
+    os.makedirs(d, exist_ok=True)
+    p = os.path.join(d, "%s_%s.model.json" % (stream.replace("-", "_"), h.hexdigest()[:24]))
+    if os.path.exists(p):
+        try:
+            mism = [tuple(x) for x in json.load(open(p))]
+            st = ctx.cov["streams"].setdefault(stream, {"cases": 0, "disagreements": 0})
+            st["cases"] += len(cases)
+            st["disagreements"] += len(mism)
+            st["evaluated_by"] = "an earlier check of this run set (same call logs, same model sources)"
+            ctx.cov["evaluations"] += len(cases)
+            ctx.cov["traces_validated_against_impl"] += len(cases)
+            return mism
+        except ValueError:
+            pass
+    mism = ctx.model_stream(stream, header, in_type, fn, cases, shard=shard)
+    for f in os.listdir(d):
+        if f.startswith(stream.replace("-", "_") + "_") and f.endswith(".model.json"):
+            try:
+                os.remove(os.path.join(d, f))
+            except OSError:
+                pass
+    json.dump(mism, open(p, "w"))
+    return mism
 
 
 # ------------------------------------------------------------------ log -> events of the machine with the event queue
@@ -395,5 +433,6 @@ def machine_q_stream(ctx, worlds, runs):
         exp.append(pend if pend is not None else 0)
         cases.append(("(%s, %s)" % (gworld, gevs), exp, i))
         idx.append(i)
-    mism = ctx.model_stream("S-simq", HEADER_Q, "world * list qev", "(fun p => observe_q (fst p) (snd p))", cases, shard=10)
+    mism = cached_model_stream(ctx, "S-simq", HEADER_Q, "world * list qev", "(fun p => observe_q (fst p) (snd p))", cases, 10,
+                               ["Model/Sim.v", "Model/SimQ.v", "Model/EventQ.v", "Gen/Src_Task.v", "Gen/Src_Event.v", "Model/Val.v"])
     return [(idx[k], mv, cases[k][1]) for k, mv in mism], len(cases)
